@@ -99,4 +99,19 @@ var props = []propCfg{
 		LevelNote: "Trusted: reference equality on model trees; reflection-based value construction (unsafe is used only to fill lower-case fields, as generated code in the same package would).",
 		DesignRef: "DESIGN.md section 4, C10",
 	},
+	{
+		ID: "C04", Pkg: "props/c04", Needs: []string{"fc", "bsm"},
+		Tests: []testCfg{
+			{Name: "TestFixedPoint", ShardsQ: 1, ShardsT: 1},
+		},
+		Rule:      "exhaustive enumeration of the finite domain the property names: the 12 compiler sources (file list and order read from fc/fc_all.sh), every sample of samples/filelist.txt (recipe of samples/myfc.sh), cmd/build_sample_md/build_sample_md.fo (recipe of its fc.sh) and samples/README.md through the rebuilt build_sample_md, x compiler generation 1 (fc built from the checked-in gen_*.go) and generation 2 (fc and build_sample_md rebuilt from generation 1's output). One evaluation = one byte comparison of a gofmt'ed regenerated file with its reference (generation 1: the working tree; generation 2: generation 1's output); the set of files written must equal the expected set. Non-trivial = the compared file contains at least one top-level definition (README: always); distinct = hash of (generation, file, content).",
+		Technique: "round-trip / differential over an exhaustively enumerated finite domain (two compiler generations)",
+		Assumptions: []string{
+			"the regeneration recipes are the ones in fc/fc_all.sh, samples/myfc.sh, cmd/build_sample_md/fc.sh (read at run time)",
+			"gofmt of the local toolchain (go1.23.5) is the formatter",
+		},
+		LevelText: "The whole domain is finite and is enumerated completely on every run (70 byte comparisons on the pinned tree): any edit to a .fo, a gen_*.go, wrapper.go, a recipe, the file list or the README that breaks the fixed point is reported with the first differing line. This decides the property for the tree at hand.",
+		LevelNote: "Trusted: go build, gofmt, byte comparison. The check says nothing about trees other than the one it is run on.",
+		DesignRef: "DESIGN.md section 4, C04",
+	},
 }
